@@ -110,7 +110,11 @@ Verdict(r) ==
       unchanged == r.out.o # "value" \/ SameVal(r.out.recv_after, r.recv)
       pairs == HasPair(s) \/ (\E i \in 1..Len(r.args) : r.args[i].k = "str" /\ HasPair(r.args[i].u))
       objs  == \E i \in 1..Len(r.args) : IsObjArg(r.args[i])
+      \* Again: the same call made a second time, after the first result was modified in place (elements pushed, reversed,
+      \* overwritten), gives the same value: results depend on (method, receiver, arguments) only and every call returns a fresh value
+      again == r.out.o # "value" \/ SameVal(r.out.v2, r.out.v)
   IN IF ~Supported(r.m, s, r.args) THEN [v |-> "unsupported", dev |-> "", exp |-> exp]
+     ELSE IF ~again THEN [v |-> "mismatch", dev |-> "", exp |-> exp]
      ELSE IF OutMatches(r.out, exp) /\ unchanged THEN [v |-> "pass", dev |-> "", exp |-> exp]
      ELSE IF (pairs \/ objs) /\ unchanged /\ OutMatches(r.out, AsIs(r.m, s, r.args))
           THEN [v |-> "mismatch", dev |-> (IF pairs THEN "Dev_CodePoints" ELSE "Dev_ObjectArgNoToPrimitive"), exp |-> exp]
